@@ -272,12 +272,37 @@ theorem candidates_none (rhsStruct : Node) (hr : ctx.opts.rule ≠ .name) : ctx.
 theorem candidates_name (rhsStruct : Node) (hr : ctx.opts.rule = .name) :
     ctx.candidates rhsStruct =
       (if ctx.opts.getter then
-        ((ctx.env.methodsOf (rhsStruct.exprType ctx.env)).filter ctx.env.compliesGetter).map
+        ((ctx.env.methodsOf (rhsStruct.exprType ctx.env)).filter fun m =>
+            ctx.env.compliesGetter m &&
+              !(m.ptrRecv && !ctx.env.isPtr (rhsStruct.exprType ctx.env) && !rhsStruct.addressable ctx.env)).map
           fun m => Node.method rhsStruct m.name m.results
        else []) ++
       ((ctx.env.fieldsOf (rhsStruct.exprType ctx.env)).map fun f => Node.field rhsStruct f.name f.ty) := by
   unfold BCtx.candidates
   simp [hr]
+
+/-- a getter is a candidate only if it can be called on the source expression: a pointer-receiver
+method needs a pointer or an addressable value (C01: never emit a call that does not compile) -/
+theorem candidates_callable (rhsStruct : Node) (p : Node) (n : String) (rs : List TyId)
+    (h : Node.method p n rs ∈ ctx.candidates rhsStruct) :
+    ∃ m ∈ ctx.env.methodsOf (rhsStruct.exprType ctx.env), m.name = n ∧ ctx.env.compliesGetter m = true ∧
+      (m.ptrRecv = true → ctx.env.isPtr (rhsStruct.exprType ctx.env) = true ∨ rhsStruct.addressable ctx.env = true) := by
+  unfold BCtx.candidates at h
+  simp only at h
+  split at h
+  · simp only [List.mem_append, List.mem_map] at h
+    rcases h with h | ⟨f, _, hf⟩
+    · split at h
+      · simp only [List.mem_map, List.mem_filter, Bool.and_eq_true, Bool.not_eq_true'] at h
+        obtain ⟨m, ⟨hm, hc, hp⟩, he⟩ := h
+        injection he with _ hn _
+        refine ⟨m, hm, hn, hc, ?_⟩
+        intro hptr
+        simp only [hptr, Bool.true_and, Bool.and_eq_false_iff, Bool.not_eq_false'] at hp
+        exact hp
+      · cases h
+    · cases hf
+  · cases h
 
 /-- no getter call is ever introduced without `:getter` -/
 theorem candidates_no_getter (rhsStruct : Node) (hg : ctx.opts.getter = false) :
